@@ -390,6 +390,60 @@ Example C23_mixed_forks_nonvacuous :
   option_map s_setid (run_spec t sched forced sinit [Import 1; Import 2; Import 3; Import 4; Import 5]) = Some 1.
 Proof. vm_compute. repeat split; reflexivity. Qed.
 
+(* --- closer round: NextGrandpaAuthorityChange on ARBITRARY block trees, by induction.  For EVERY
+   well-formed block tree (forks included), ANY set of scheduled-change announcements and EVERY
+   history of possible imports and finalisations of ANY length, the repaired Go model and the
+   Substrate specification agree after every event on success/failure and on ALL FOUR observers
+   (agree_run, with obs_eq): current set id, authorities of every set id, set id per block number
+   AND the next authority change seen from every imported block that descends from the last
+   finalised block (pending scheduled changes on several forks included).  No extra hypothesis:
+   this is C23_refines_scheduled_forks with the fourth observer added, and generalises
+   C23_refines_chain_scheduled.  gossamer answers with the FIRST root of its pending-change forest
+   that is announced on the ancestry of the best block and due, the specification with the MINIMUM
+   effective number over such roots; the proof carries, next to the simulation relation of Forks.v,
+   the nested invariant "sibling nodes of the pending-change forest (roots, and children of every
+   node) are pairwise unrelated in the block tree" (NextChangeForks.einv), under which at most one
+   root lies on the ancestry of any block (fold_first: first applicable = minimum), and "no pending
+   change is announced by genesis" (every effective number is >= 1, so gossamer's 0 = none
+   encoding hides nothing). --- *)
+From C23 Require Import NextChangeForks.
+Theorem C23_next_change_forks : forall t sched evs, wf t = true -> sched_ok sched ->
+  agree_run t sched [] [O] O ginit sinit evs.
+Proof. exact next_change_forks_refines. Qed.
+Print Assumptions C23_next_change_forks.
+
+(* the per-state form, for ANY best block that descends from the last finalised block: in every
+   state related by the invariants (kinv of Forks.v, einv) the two observers return the same *)
+Theorem C23_next_change_forks_state : forall t imported fin g q best, wf t = true ->
+  kinv t imported fin g q -> einv t (g_roots g) -> is_anc t fin best = true ->
+  go_next_change fixed t g best = Some (spec_next_change t q best).
+Proof. exact next_change_forks_state. Qed.
+Print Assumptions C23_next_change_forks_state.
+
+(* non-vacuity: blocks 2 and 3 fork from block 1 and both announce a change (effective numbers 3 and
+   2), block 4 (on 2) announces one nested under the root of block 2; both roots are pending at the
+   same time.  Seen from block 5 (fork of 3) the FIRST root (block 2) does not apply and the second
+   one does; seen from block 6 (fork of 2) the first one does; from block 2 nothing is due yet.
+   Finalising block 2 abandons the fork of block 3: its root is pruned on both sides. *)
+Example C23_next_change_forks_nonvacuous :
+  let t := [O; 1%nat; 1%nat; 2%nat; 3%nat; 4%nat] in
+  let sched := [(2%nat, mkpc 2 1 5 0); (3%nat, mkpc 3 0 6 0); (4%nat, mkpc 4 1 7 0)] in
+  let evs := [Import 1; Import 2; Import 3; Import 4; Import 5; Import 6] in
+  let g := fst (run_go fixed t sched [] ginit evs) in
+  let g2 := fst (run_go fixed t sched [] ginit (evs ++ [Finalise 2])) in
+  wf t = true /\
+  map nblk (g_roots g) = [2%nat; 3%nat] /\
+  map (fun n => map nblk (n_children n)) (g_roots g) = [[4%nat]; []] /\
+  map (go_next_change fixed t g) [2%nat; 3%nat; 5%nat; 6%nat]
+    = [Some None; Some (Some 2); Some (Some 2); Some (Some 3)] /\
+  option_map (fun q => map (spec_next_change t q) [2%nat; 3%nat; 5%nat; 6%nat]) (run_spec t sched [] sinit evs)
+    = Some [None; Some 2; Some 2; Some 3] /\
+  map nblk (g_roots g2) = [2%nat] /\
+  go_next_change fixed t g2 6 = Some (Some 3) /\
+  option_map (fun q => (map nblk (s_roots q), spec_next_change t q 6)) (run_spec t sched [] sinit (evs ++ [Finalise 2]))
+    = Some ([2%nat], Some 3).
+Proof. vm_compute. repeat split; reflexivity. Qed.
+
 (* --- refinement, exhaustive small scope.  For EVERY well-formed block tree with at most 3
    blocks besides genesis, every assignment of at most 2 change announcements (scheduled or
    forced, delays 0..2, every best-finalized number up to the block's own) and EVERY order of
